@@ -20,8 +20,11 @@ VPick(ev) ==
       rank0Name == \E i, j \in DOMAIN q : i # j /\ IsNameKey(q[i][1]) /\ IsNameKey(q[j][1]) /\ NameRank(Canon(q[i][1])) = 0
       rank0Id == \E i, j \in DOMAIN q : i # j /\ IsIdKey(q[i][1]) /\ IsIdKey(q[j][1]) /\ IdRank(Canon(q[i][1])) = 0 IN
   FirstBad(<<
-    IF ev[3] = wantName THEN "ok" ELSE IF rank0Name THEN "priority:rank0-key-treated-as-unset" ELSE "priority:name",
-    IF ev[4] = wantId THEN "ok" ELSE IF rank0Id THEN "priority:rank0-key-treated-as-unset" ELSE "priority:id" >>)
+    \* the known finding excuses exactly the answer the code's order-dependent fold gives FOR THIS ORDER (Quals!CodeFold)
+    IF ev[3] = wantName THEN "ok"
+    ELSE IF rank0Name /\ ~fallback /\ ev[3] = CodeFoldName(q) THEN "priority:rank0-key-treated-as-unset" ELSE "priority:name",
+    IF ev[4] = wantId THEN "ok"
+    ELSE IF rank0Id /\ ~fallback /\ ev[4] = CodeFoldId(q) THEN "priority:rank0-key-treated-as-unset" ELSE "priority:id" >>)
 (* ["types", initial, q, result] *)
 VTypes(ev) == Ok({ev[4][i] : i \in DOMAIN ev[4]} = SemTypes({ev[2][i] : i \in DOMAIN ev[2]}, ev[3]), "types:union")
 (* ["merge", q1, q2, result as sequence of <<key, values>>] *)
